@@ -88,6 +88,22 @@ def aglText (gl : GlyphList) : Option Name → Option Text
   | none => none
   | some n => let t := aglSpec gl n; if t.isEmpty then none else some t
 
+/-! ### The grammar of the property: well-formed glyph names -/
+
+/-- A component of the grammar: a list name, `uni` + one or more groups of four uppercase hex digits
+(no surrogate), or `u` + four to six uppercase hex digits denoting a scalar value. -/
+def wellFormedComp (gl : GlyphList) (c : Name) : Bool :=
+  (glLookup gl c).isSome ||
+  (match uniForm c with
+   | some t => !t.isEmpty
+   | none => false) ||
+  (uForm c).isSome
+
+/-- A glyph name of the grammar: components of the grammar joined by underscores, optionally followed by
+a suffix that starts with a period. -/
+def wellFormedName (gl : GlyphList) (n : Name) : Bool :=
+  (components (dropSuffix n)).all (wellFormedComp gl)
+
 /-! ### Names outside the judged domain (see docs/C06.md) -/
 
 def hasLowerHex (s : List Char) : Bool := s.any (fun c => 97 ≤ c.toNat && c.toNat ≤ 102)
